@@ -711,9 +711,9 @@ protected:
     {
       std::lock_guard<std::mutex> lock(_sessionMutex);
       auto it = _sessionInfo.find(sid);
-      if (it == _sessionInfo.end())
+      if (it == _sessionInfo.end() || it->second.rejected)
       {
-        return; // Session was closed
+        return; // Session was closed, or is being closed after unframable input
       }
 
       // Check buffer size limit to prevent DoS
@@ -738,7 +738,7 @@ protected:
     {
       // closeSession guards '_transport && !_shutdown' under _mutex (no unguarded
       // raw _transport deref vs stop()'s reset), with _sessionMutex NOT held.
-      closeSession(sid);
+      rejectInOrder(sid, 0, "");
       return;
     }
 
@@ -758,7 +758,7 @@ protected:
                                   std::to_string(sid) + " - closing connection");
         // No lock held here; closeSession guards '_transport && !_shutdown' under
         // _mutex (was an unguarded raw _transport->close — UAF risk vs stop()).
-        closeSession(sid);
+        rejectInOrder(sid, 0, "");
         return;
       }
 
@@ -816,7 +816,7 @@ protected:
               iora::core::Logger::error("HttpServer: Body size limit exceeded for session " +
                                         std::to_string(sid) + " - closing connection");
               // No lock held; guarded close (was unguarded raw _transport->close).
-              closeSession(sid);
+              rejectInOrder(sid, 0, "");
               return;
             }
             else
@@ -860,9 +860,8 @@ protected:
         iora::core::Logger::error("HttpServer: Invalid message framing (Content-Length / "
                                   "Transfer-Encoding) for session " +
                                   std::to_string(sid) + " - rejecting and closing connection");
-        // No lock held here; sendErrorResponse sends the status and closes.
-        sendErrorResponse(sid, framingErrorStatus, getStatusText(framingErrorStatus),
-                          "Invalid message framing");
+        // No lock held here; the rejection sends the status and closes.
+        rejectInOrder(sid, framingErrorStatus, "Invalid message framing");
         return;
       }
 
@@ -884,7 +883,7 @@ protected:
         {
           iora::core::Logger::error("HttpServer: Malformed chunked request body for session " +
                                     std::to_string(sid) + " - rejecting and closing connection");
-          sendErrorResponse(sid, 400, "Bad Request", "Malformed chunked request body");
+          rejectInOrder(sid, 400, "Malformed chunked request body");
           return;
         }
         requestData = dataStr.substr(0, headerEnd + 4);
@@ -930,7 +929,7 @@ protected:
         }
         else
         {
-          it->second.pendingRequests.push_back(std::move(requestData));
+          it->second.pendingRequests.push_back(PendingRequest{std::move(requestData), false, 0, {}});
           if (!it->second.dispatchActive)
           {
             it->second.dispatchActive = true;
@@ -988,7 +987,7 @@ protected:
   {
     for (;;)
     {
-      std::string requestData;
+      PendingRequest next;
       {
         std::lock_guard<std::mutex> lock(_sessionMutex);
         auto it = _sessionInfo.find(sid);
@@ -1001,11 +1000,64 @@ protected:
           it->second.dispatchActive = false;
           return;
         }
-        requestData = std::move(it->second.pendingRequests.front());
+        next = std::move(it->second.pendingRequests.front());
         it->second.pendingRequests.pop_front();
       }
-      processHttpRequest(sid, requestData);
+      if (next.reject)
+      {
+        // Every earlier request of this connection has been answered: now the
+        // unframable input behind them ends the connection. dispatchActive
+        // stays set — nothing on this session is dispatched any more.
+        rejectNow(sid, next.rejectStatus, next.rejectBody);
+        return;
+      }
+      processHttpRequest(sid, next.data);
     }
+  }
+
+  /// \brief Reject input that cannot be framed (invalid length information, a
+  /// size limit): send \p status (+ Connection: close) and close, or just close
+  /// when \p status is 0.
+  void rejectNow(SessionId sid, int status, const std::string &body)
+  {
+    if (status != 0)
+    {
+      sendErrorResponse(sid, status, getStatusText(status), body);
+    }
+    else
+    {
+      closeSession(sid);
+    }
+  }
+
+  /// \brief Reject unframable input IN ORDER. Called on the I/O thread by
+  /// handleIncomingData (no lock held). If earlier requests of the connection
+  /// are still queued or being processed, the rejection is queued behind them
+  /// so that its close cannot overtake their responses; otherwise it is carried
+  /// out at once. Nothing after the rejected bytes can be framed, so the rest
+  /// of the buffer is dropped and later input of the session is ignored.
+  void rejectInOrder(SessionId sid, int status, const std::string &body)
+  {
+    {
+      std::lock_guard<std::mutex> lock(_sessionMutex);
+      auto it = _sessionInfo.find(sid);
+      if (it == _sessionInfo.end())
+      {
+        return; // Session was closed
+      }
+      if (it->second.rejected)
+      {
+        return; // already rejected, close under way
+      }
+      it->second.rejected = true;
+      it->second.buffer.clear();
+      if (it->second.dispatchActive)
+      {
+        it->second.pendingRequests.push_back(PendingRequest{{}, true, status, body});
+        return;
+      }
+    }
+    rejectNow(sid, status, body);
   }
 
   /// \brief Process a complete HTTP request
@@ -2424,6 +2476,17 @@ private:
   // Thread pool for processing requests
   core::ThreadPool _threadPool;
 
+  // One entry of a session's in-order backlog: a complete request, or the
+  // rejection (status + close, or bare close when rejectStatus == 0) of input
+  // that could not be framed.
+  struct PendingRequest
+  {
+    std::string data;
+    bool reject = false;
+    int rejectStatus = 0;
+    std::string rejectBody;
+  };
+
   // Session information tracking
   struct SessionInfo
   {
@@ -2436,8 +2499,13 @@ private:
     // Complete requests not yet processed, in arrival order, and whether a pool
     // task (processPendingRequests) currently owns this backlog. Both guarded by
     // _sessionMutex.
-    std::deque<std::string> pendingRequests;
+    std::deque<PendingRequest> pendingRequests;
     bool dispatchActive = false;
+
+    // Unframable input was seen (invalid length information, a size limit): the
+    // rejection is queued behind pendingRequests or already carried out, and
+    // everything the peer sends from now on is ignored. Guarded by _sessionMutex.
+    bool rejected = false;
 
     // Buffer management constants
     static constexpr std::size_t MAX_BUFFER_SIZE = 1024 * 1024;    // 1MB max per session
